@@ -250,6 +250,87 @@ theorem frame_iterNext (c : Wfs.Cfg) (s s' : Wfs.State) (t : Nat) (b : Bool)
   simp only [Wfs.step] at h; (repeat' split at h) <;>
     simp only [Option.some.injEq, reduceCtorEq] at h <;> subst h <;> rfl
 
+/-- L2 step of thread `t` enabled ⟺ some decoration `l` of the label with the values of the global state is enabled
+in the local automaton and the global guard holds -/
+theorem enabled_iff (c : Wfs.Cfg) (s : Wfs.State) (t : Nat) (L : Wfs.Label) (hL : ∃ l0, toL2 t l0 = some L) :
+    (∃ s', Wfs.step c s L = some s') ↔
+      ∃ l ls', toL2 t l = some L ∧ Obs s t l ∧ Guard c s t l ∧ lstep (proj s t) l = some ls' := by
+  constructor
+  · rintro ⟨s', h⟩
+    obtain ⟨l, h1, h2, h3, h4⟩ := proj_step c s s' t L hL h
+    exact ⟨l, _, h1, h2, h3, h4⟩
+  · rintro ⟨l, ls', h1, h2, h3, h4⟩
+    obtain ⟨s', h, -⟩ := lift_step c s t l L ls' h1 h2 h3 h4
+    exact ⟨s', h⟩
+
+/-- the labels of thread `t` that have a local counterpart -/
+def own (t : Nat) : Wfs.Label → Bool
+  | .pushBegin t' _ | .pushX t' | .pushSt t' | .popBegin t' _ | .popLd t' | .popSync t' | .popCas t' | .popAll t'
+  | .empty t' => t' == t
+  | _ => false
+
+theorem own_iff (t : Nat) (L : Wfs.Label) : own t L = true ↔ ∃ l0, toL2 t l0 = some L := by
+  constructor
+  · intro h
+    cases L <;> simp only [own, beq_iff_eq, Bool.false_eq_true] at h <;> subst h
+    case pushBegin n => exact ⟨.pushBegin n, rfl⟩
+    case pushX => exact ⟨.pushX 0 0, rfl⟩
+    case pushSt => exact ⟨.pushSt 0 0, rfl⟩
+    case popBegin b => exact ⟨.popBegin b, rfl⟩
+    case popLd => exact ⟨.popLd 0, rfl⟩
+    case popSync => exact ⟨.popSync 0 0, rfl⟩
+    case popCas => exact ⟨.popCas 0 0 0, rfl⟩
+    case popAll => exact ⟨.popAll 0, rfl⟩
+    case empty => exact ⟨.empty 0, rfl⟩
+  · rintro ⟨l0, h⟩
+    cases l0 <;> simp only [toL2, Option.some.injEq, reduceCtorEq] at h <;> subst h <;> simp [own]
+
+/-- a label that is not `own t` belongs to another thread / the environment, or is one of `t`'s own environment
+labels, or is `iterNext t` -/
+theorem not_own (t : Nat) (L : Wfs.Label) (h : own t L = false) :
+    tidOf L ≠ some t ∨ (L = .flush t ∨ L = .lock t ∨ L = .unlock t ∨ L = .rlock t ∨ L = .runlock t) ∨
+      ∃ b, L = .iterNext t b := by
+  cases L with
+  | flush t' | lock t' | unlock t' | rlock t' | runlock t' =>
+    by_cases e : t' = t
+    · subst e; simp
+    · exact .inl (by simp [tidOf, e])
+  | iterNext t' b =>
+    by_cases e : t' = t
+    · subst e; simp
+    · exact .inl (by simp [tidOf, e])
+  | gpStart | gpEnd | reclaim _ => exact .inl (by simp [tidOf])
+  | _ => exact .inl (by simpa [tidOf, own] using h)
+
+/-- **Every L2 run projects to a run of the local automaton**: the subsequence of `t`'s labels (decorated with the
+values the global states determine) is accepted from `proj s t` and ends in `proj s' t` – provided `t` does not
+iterate a popped list meanwhile (`iterNext` overwrites `ret t`). -/
+theorem proj_run (c : Wfs.Cfg) (t : Nat) : ∀ (Ls : List Wfs.Label) (s s' : Wfs.State),
+    Wfs.run c s Ls = some s' → (∀ b, Wfs.Label.iterNext t b ∉ Ls) →
+    ∃ ls, ls.filterMap (toL2 t) = Ls.filter (own t) ∧ lrun (proj s t) ls = some (proj s' t) := by
+  intro Ls
+  induction Ls with
+  | nil => intro s s' h _; simp only [Wfs.run, Option.some.injEq] at h; subst h; exact ⟨[], rfl, rfl⟩
+  | cons L Ls ih =>
+    intro s s' h hno
+    simp only [Wfs.run] at h
+    cases hs : Wfs.step c s L with
+    | none => simp [hs] at h
+    | some s1 =>
+      simp only [hs] at h
+      obtain ⟨ls, hls, hrun⟩ := ih s1 s' h (fun b hb => hno b (List.mem_cons_of_mem _ hb))
+      cases ho : own t L with
+      | true =>
+        obtain ⟨l, h1, -, -, h4⟩ := proj_step c s s1 t L ((own_iff t L).mp ho) hs
+        exact ⟨l :: ls, by simp [h1, hls, ho], by simp [lrun, h4, hrun]⟩
+      | false =>
+        have hp : proj s1 t = proj s t := by
+          rcases not_own t L ho with h1 | h1 | ⟨b, rfl⟩
+          · exact frame c s s1 t L h1 hs
+          · exact frame_own c s s1 t L h1 hs
+          · exact absurd List.mem_cons_self (hno b)
+        exact ⟨ls, by simp [ho, hls], by rw [← hp]; exact hrun⟩
+
 end WfsL
 
 -- ==========================================================================================================
@@ -447,6 +528,87 @@ theorem frame_iterNext (c : Lfs.Cfg) (s s' : Lfs.State) (t : Nat)
     (h : Lfs.step c s (.iterNext t) = some s') : (proj s' t).pc = (proj s t).pc := by
   simp only [Lfs.step] at h; (repeat' split at h) <;>
     simp only [Option.some.injEq, reduceCtorEq] at h <;> subst h <;> rfl
+
+/-- L2 step of thread `t` enabled ⟺ some decoration `l` of the label with the values of the global state is enabled
+in the local automaton and the global guard holds -/
+theorem enabled_iff (c : Lfs.Cfg) (s : Lfs.State) (t : Nat) (L : Lfs.Label) (hL : ∃ l0, toL2 t l0 = some L) :
+    (∃ s', Lfs.step c s L = some s') ↔
+      ∃ l ls', toL2 t l = some L ∧ Obs s t l ∧ Guard c s t l ∧ lstep (proj s t) l = some ls' := by
+  constructor
+  · rintro ⟨s', h⟩
+    obtain ⟨l, h1, h2, h3, h4⟩ := proj_step c s s' t L hL h
+    exact ⟨l, _, h1, h2, h3, h4⟩
+  · rintro ⟨l, ls', h1, h2, h3, h4⟩
+    obtain ⟨s', h, -⟩ := lift_step c s t l L ls' h1 h2 h3 h4
+    exact ⟨s', h⟩
+
+/-- the labels of thread `t` that have a local counterpart -/
+def own (t : Nat) : Lfs.Label → Bool
+  | .pushBegin t' _ | .pushSt t' | .pushCas t' | .popBegin t' | .popLd t' | .popLdN t' | .popCas t' | .popAll t'
+  | .empty t' => t' == t
+  | _ => false
+
+theorem own_iff (t : Nat) (L : Lfs.Label) : own t L = true ↔ ∃ l0, toL2 t l0 = some L := by
+  constructor
+  · intro h
+    cases L <;> simp only [own, beq_iff_eq, Bool.false_eq_true] at h <;> subst h
+    case pushBegin n => exact ⟨.pushBegin n, rfl⟩
+    case pushSt => exact ⟨.pushSt 0 0, rfl⟩
+    case pushCas => exact ⟨.pushCas 0 0 0, rfl⟩
+    case popBegin => exact ⟨.popBegin, rfl⟩
+    case popLd => exact ⟨.popLd 0, rfl⟩
+    case popLdN => exact ⟨.popLdN 0 0, rfl⟩
+    case popCas => exact ⟨.popCas 0 0 0, rfl⟩
+    case popAll => exact ⟨.popAll 0, rfl⟩
+    case empty => exact ⟨.empty 0, rfl⟩
+  · rintro ⟨l0, h⟩
+    cases l0 <;> simp only [toL2, Option.some.injEq, reduceCtorEq] at h <;> subst h <;> simp [own]
+
+/-- a label that is not `own t` belongs to another thread / the environment, or is one of `t`'s own environment
+labels, or is `iterNext t` -/
+theorem not_own (t : Nat) (L : Lfs.Label) (h : own t L = false) :
+    tidOf L ≠ some t ∨ (L = .flush t ∨ L = .lock t ∨ L = .unlock t ∨ L = .rlock t ∨ L = .runlock t) ∨
+      L = .iterNext t := by
+  cases L with
+  | flush t' | lock t' | unlock t' | rlock t' | runlock t' =>
+    by_cases e : t' = t
+    · subst e; simp
+    · exact .inl (by simp [tidOf, e])
+  | iterNext t' =>
+    by_cases e : t' = t
+    · subst e; simp
+    · exact .inl (by simp [tidOf, e])
+  | gpStart | gpEnd | reclaim _ => exact .inl (by simp [tidOf])
+  | _ => exact .inl (by simpa [tidOf, own] using h)
+
+/-- **Every L2 run projects to a run of the local automaton**: the subsequence of `t`'s labels (decorated with the
+values the global states determine) is accepted from `proj s t` and ends in `proj s' t` – provided `t` does not
+iterate a popped list meanwhile (`iterNext` overwrites `ret t`). -/
+theorem proj_run (c : Lfs.Cfg) (t : Nat) : ∀ (Ls : List Lfs.Label) (s s' : Lfs.State),
+    Lfs.run c s Ls = some s' → (Lfs.Label.iterNext t ∉ Ls) →
+    ∃ ls, ls.filterMap (toL2 t) = Ls.filter (own t) ∧ lrun (proj s t) ls = some (proj s' t) := by
+  intro Ls
+  induction Ls with
+  | nil => intro s s' h _; simp only [Lfs.run, Option.some.injEq] at h; subst h; exact ⟨[], rfl, rfl⟩
+  | cons L Ls ih =>
+    intro s s' h hno
+    simp only [Lfs.run] at h
+    cases hs : Lfs.step c s L with
+    | none => simp [hs] at h
+    | some s1 =>
+      simp only [hs] at h
+      obtain ⟨ls, hls, hrun⟩ := ih s1 s' h (fun hb => hno (List.mem_cons_of_mem _ hb))
+      cases ho : own t L with
+      | true =>
+        obtain ⟨l, h1, -, -, h4⟩ := proj_step c s s1 t L ((own_iff t L).mp ho) hs
+        exact ⟨l :: ls, by simp [h1, hls, ho], by simp [lrun, h4, hrun]⟩
+      | false =>
+        have hp : proj s1 t = proj s t := by
+          rcases not_own t L ho with h1 | h1 | rfl
+          · exact frame c s s1 t L h1 hs
+          · exact frame_own c s s1 t L h1 hs
+          · exact absurd List.mem_cons_self hno
+        exact ⟨ls, by simp [ho, hls], by rw [← hp]; exact hrun⟩
 
 end LfsL
 
